@@ -41,6 +41,19 @@ def run(R, tier, rng):
                     try: e = [int(x) for x in p[idx].unpack()]
                     except Exception: e = None
                     add("bit_getlist " + show(a) + " " + str(b) + " " + show(idx), e, "getlist", a)
+                    for start in sorted({0, max(0, k - 1), max(0, k - 2), max(0, 2 * k - 1)}):          # runs of consecutive positions that start mid-register and spill over
+                        for ln in (2, k, k + 1):
+                            run_ = [q for q in range(start, start + ln) if q < n]
+                            if len(run_) < 2: continue
+                            try: e = [int(x) for x in p[run_].unpack()]
+                            except Exception: e = None
+                            add("bit_getlist " + show(a) + " " + str(b) + " " + show(run_), e, "getlist-run", a)
+                    # the packed array is unchanged by reading: unpack again after windows / indexing on the same object
+                    try:
+                        if n - 1 > 0: p.sliding_window(min(2, k))
+                        e = [int(x) for x in p.unpack()]
+                    except Exception: e = None
+                    add("bit_unpack " + show(a) + " " + str(b), e, "unpack-after-reads", a)
                 for w in range(1, k + 1):
                     if n - w + 1 <= 0: continue
                     if tier != "thorough" and w not in (1, 2, k - 1, k) and rng.random() < .7: continue
